@@ -157,6 +157,88 @@ def serde_and_change(ctx, prog):
     A.require('OrderedSet::change/no-order-breaking-vector-operation', paths, r_ch, replay=REPLAY)
 
 
+    # replace / update are `change` with a key predicate and nothing else (no pre-check, no early return)
+    def key_of(t, who):
+        """t is key(<who>) for the closure argument / capture named by the regex `who`"""
+        t = strip(t)
+        return isinstance(t, tuple) and t and t[0] == 'app' and re.search(r'KeyComparable>::key$', t[1]) and mentions(t[2][0], who) and \
+            len(term_leaves(t[2][0])) == 1
+
+    for nm, keys in (('replace', [r'^arg1$', r'^update$']), ('update', [r'^update$'])):
+        f = prog.one(r'ordered_set::<impl at [^>]*>::%s$' % nm)
+        paths, ex = A.paths(f)
+
+        def r_wr(p, nm=nm):
+            if p.kind != 'return':
+                return 'panic ' + p.msg
+            ch = p.find_calls(r'OrderedSet::change$|ordered_set::<impl at [^>]*>::change$')
+            if len(paths) != 1 or len(ch) != 1 or len(p.calls) != 1:
+                return '%s does something besides one call of change (a pre-check, an early return, another branch)' % nm
+            c = ch[0]
+            if strip(c.args[0]) != ('leaf', 'self') or strip(c.args[1]) != ('leaf', 'update') or ('%s::{closure' % nm) not in str(c.args[2]) and 'closure@' not in str(c.args[2]):
+                return 'change not called as self.change(update, <predicate>)'
+            return None if isinstance(p.val, VBool) and p.implies(p.val.e == ex.sym_bool(c.ret).e) else 'result is not what change returned'
+        A.require('OrderedSet::%s/exactly-one-change-call-and-its-result' % nm, paths, r_wr, replay=REPLAY)
+
+        fc = prog.one(r'ordered_set::<impl at [^>]*>::%s::\{closure#0\}$' % nm)
+        cpaths, cex = A.paths(fc)
+
+        def r_pred(p, keys=keys, nm=nm):
+            if p.kind != 'return':
+                return 'panic ' + p.msg
+            eqs = [c for c in p.calls if re.search(r'PartialEq.*>::eq$', c.name)]
+            hits = {}
+            for c in eqs:
+                a, b = c.args[0], c.args[1]
+                for k in keys:
+                    if (key_of(a, r'^item$') and key_of(b, k)) or (key_of(b, r'^item$') and key_of(a, k)):
+                        hits[k] = c
+            others = [c for c in eqs if c not in hits.values()]
+            if others:
+                return 'predicate compares something other than the entry key with the key(s) of %s' % ' / '.join(keys)
+            if not isinstance(p.val, VBool):
+                return 'predicate result is not a boolean'
+            if p.implies(p.val.e):
+                return None if any(p.took(c.ret, 'true') for c in hits.values()) else 'predicate true without a key match'
+            if p.implies(z3.Not(p.val.e)):
+                return None if len(hits) == len(keys) and all(p.took(c.ret, 'false') for c in hits.values()) else \
+                    'predicate false although not every key comparison failed (or one was never made)'
+            # result is the last comparison itself: all earlier ones failed
+            last = eqs[-1] if eqs else None
+            if last is None or not p.implies(p.val.e == cex.sym_bool(last.ret).e) or len(hits) != len(keys):
+                return 'predicate result does not derive from the key comparisons'
+            return None if all(p.took(c.ret, 'false') for c in hits.values() if c is not last) else 'an earlier key match is ignored'
+        A.require('OrderedSet::%s/predicate-matches-exactly-the-named-keys' % nm, cpaths, r_pred, replay=REPLAY)
+
+    # TryFrom<Vec<T>> (also the serde route): every element goes through `append`, a refused append refuses the whole vector
+    f = prog.one(r'ordered_set::<impl at [^>]*>::try_from$', sig=r'Vec<T>')
+    paths, ex = A.paths(f, unwind=3, allow_bound=True)
+    ctx.bounds.append('OrderedSet::try_from(Vec): loop unrolled 3 times (%d longer paths cut)' % A.last_bound_hits)
+
+    def r_tf(p):
+        if p.kind != 'return':
+            return 'panic ' + p.msg
+        bad = [c for c in p.calls if re.search(ORDER_BREAKING + r'|(^|::)(truncate|drain|remove|pop|clear)$', c.name)]
+        if bad:
+            return 'vector reshaped with %s instead of element-wise insertion' % bad[0].name.split('::')[-1]
+        nx = [c for c in p.calls if re.search(r'Iterator>::next$', c.name) and p.took(c, 'Some')]
+        ap = [c for c in p.calls if re.search(r'OrderedSet::append$|ordered_set::<impl at [^>]*>::append$', c.name)]
+        if len(ap) != len(nx):
+            return 'not every element taken from the vector is appended'
+        for n_, a_ in zip(nx, ap):
+            if strip(a_.args[1]) != ('field', n_.ret, 0, 'Some'):
+                return 'appended value is not the element taken from the vector'
+        if p.is_ok():
+            if not all(p.took(a_.ret, 'true') for a_ in ap):
+                return 'vector accepted although an element was refused as a duplicate'
+            end = [c for c in p.calls if re.search(r'Iterator>::next$', c.name) and p.took(c, 'None')]
+            if not end:
+                return 'accepted before the vector was exhausted'
+            return None
+        return None if ap and p.took(ap[-1].ret, 'false') else 'vector refused although no element was refused'
+    A.require('OrderedSet::try_from<Vec>/element-wise-through-append', paths, r_tf, replay=REPLAY)
+
+
 def kani_part(ctx):
     import kanirun
     fn = ['OrderedSet::from_iter (projection key)', 'OrderedSet::append', 'OrderedSet::prepend', 'OrderedSet::remove', 'OrderedSet::replace', 'OrderedSet::update', 'OrderedSet::change',
